@@ -33,6 +33,9 @@ pub enum KeyAlt {
   /// v*.local, v2/v4.public: K' is built by `Key::<32>::from(&[u8])` from key material of another length:
   /// kind 0 = K followed by n more bytes, kind 1 = K without its last n bytes, kind 2 = n bytes followed by K
   WrongLength(u8, u8),
+  /// first byte of the parse-side public key replaced by this value (P-384: every SEC1 tag - compact 05, hybrid 06/07,
+  /// uncompressed 04, infinity 00 ...; Ed25519: the low byte of y)
+  FirstByte(u8),
 }
 
 #[derive(Clone, Debug, Serialize, Deserialize)]
@@ -160,6 +163,14 @@ fn alt_public(p: Proto, seed: &[u8; 32], alt: &KeyAlt) -> Option<Vec<u8>> {
     }
     KeyAlt::HexSpelling(..) => return None, // handled by `hex_spelling`
     KeyAlt::WrongLength(..) => return None, // handled by `wrong_length`
+    KeyAlt::FirstByte(b) => {
+      if p.is_local() || p == Proto::V1P || pk[0] == *b {
+        return None;
+      }
+      let mut k = pk.clone();
+      k[0] = *b;
+      k
+    }
     KeyAlt::RsaPool(i) => {
       if p != Proto::V1P {
         return None;
@@ -214,6 +225,7 @@ impl Sub for KeyBinding {
       KeyAlt::FlipTwo(..) => "two-bit-flips",
       KeyAlt::HexSpelling(..) => "hex-spelled-keys",
       KeyAlt::WrongLength(..) => "material-of-another-length",
+      KeyAlt::FirstByte(_) => "first-byte-replaced",
     }));
     let (f, a) = (s.footer.as_deref(), s.assertion());
     let describe = |o: &crate::rt::LayerOut| o.message();
@@ -385,6 +397,7 @@ fn alt_strategy(p: Proto) -> BoxedStrategy<KeyAlt> {
     (3, (0u8..5, any::<u8>()).prop_map(|(k, w)| KeyAlt::Permute(k, w)).boxed()),
     (3, (any::<u16>(), 0u8..5).prop_map(|(b, d)| KeyAlt::FlipTwo(b, d)).boxed()),
     (if p.is_local() || ed { 2 } else { 0 }, (0u8..3, any::<u8>()).prop_map(|(k, n)| KeyAlt::WrongLength(k, n)).boxed()),
+    (if p == Proto::V3P { 3 } else if ed { 1 } else { 0 }, prop_oneof![3 => 0u8..8, 1 => any::<u8>()].prop_map(KeyAlt::FirstByte).boxed()),
     (if p.is_local() { 3 } else { 0 }, (prop_oneof![any::<u64>(), Just(u64::MAX), (0u32..64).prop_map(|i| 1u64 << i)], any::<bool>()).prop_map(|(m, u)| KeyAlt::HexSpelling(m, u)).boxed()),
   ];
   proptest::strategy::Union::new_weighted(options.into_iter().filter(|(w, _)| *w > 0).collect()).boxed()
@@ -433,6 +446,22 @@ pub fn run(ctx: &Ctx) -> EvidenceMeta {
           }
           for alt in [KeyAlt::AllZero, KeyAlt::AllOne, KeyAlt::Negate, KeyAlt::Degenerate] {
             cases.push(KeyCase { tok: spec.clone(), alt });
+          }
+          if matches!(spec.proto, Proto::V3P | Proto::V2P | Proto::V4P) {
+            // every value of the first key byte (for P-384 that is every SEC1 tag)
+            for b in 0..=255u8 {
+              cases.push(KeyCase { tok: spec.clone(), alt: KeyAlt::FirstByte(b) });
+            }
+            // the SEC1 tags again under other key pairs (either parity of y)
+            if spec.proto == Proto::V3P {
+              for k in 0..6u8 {
+                let mut other = spec.clone();
+                other.key_seed = (0..32).map(|i| (i as u8).wrapping_mul(31).wrapping_add(k * 17 + 5)).collect();
+                for b in 0..=7u8 {
+                  cases.push(KeyCase { tok: other.clone(), alt: KeyAlt::FirstByte(b) });
+                }
+              }
+            }
           }
           for kind in 0..5u8 {
             for which in 0..12u8 {
